@@ -533,7 +533,7 @@ func c02ComparePath(env *core.Env, tn string, in []fhir.Resource, tree *model.No
 	if len(expect) > 0 {
 		env.Distinct(tn + "|" + strings.Join(names, "."))
 	}
-	c02Judge(env, tn, src, tree, names, expect, r)
+	c02Judge(env, tn, src, in, tree, names, expect, r)
 	env.SampleSpread(src, map[string]any{"type": tn, "path": src, "expected_count": len(expect), "observed": trunc(r.Short(), 200)})
 
 	// indexed variants
@@ -568,7 +568,7 @@ func c02ComparePath(env *core.Env, tn string, in []fhir.Resource, tree *model.No
 		want := model.Walk([]*model.Node{tree}, st)
 		ri := fx.Eval(env, isrc, in, nil, nil)
 		env.Cover("indexed-compared")
-		c02Judge(env, tn, isrc, tree, names, want, ri)
+		c02Judge(env, tn, isrc, in, tree, names, want, ri)
 	}
 	// subsetting / filter steps of the walker's sub-language placed after a random prefix
 	for k := 0; k < 2; k++ {
@@ -619,7 +619,7 @@ func c02ComparePath(env *core.Env, tn string, in []fhir.Resource, tree *model.No
 		want := model.Walk([]*model.Node{tree}, st)
 		rf := fx.Eval(env, fsrc, in, nil, nil)
 		env.Cover("filtered-compared")
-		c02Judge(env, tn, fsrc, tree, names, want, rf)
+		c02Judge(env, tn, fsrc, in, tree, names, want, rf)
 	}
 	// `.value` of date/time primitives renders the FHIR text of the JSON value
 	if expect[0].IsPrim && expect[0].MD != nil && expect[0].JSON != nil && len(expect) == 1 {
@@ -669,7 +669,7 @@ func routeOfNames(tree *model.Node, names []string) (nonVX string, anyChoice, co
 	return
 }
 
-func c02Judge(env *core.Env, tn, src string, tree *model.Node, names []string, expect []*model.Node, r fx.Res) {
+func c02Judge(env *core.Env, tn, src string, in []fhir.Resource, tree *model.Node, names []string, expect []*model.Node, r fx.Res) {
 	nonVX, anyChoice, contained, synth := routeOfNames(tree, names)
 	if anyChoice {
 		env.Cover("choice-step")
@@ -742,6 +742,46 @@ func c02Judge(env *core.Env, tn, src string, tree *model.Node, names []string, e
 		}
 		if want.IsPrim {
 			c02PrimitiveValue(env, tn, src, want, got, fail)
+		}
+	}
+	// the `value` step of Boolean and number primitives: one System value per element, equal to the JSON value
+	// (false and 0 are values like any other)
+	simple := len(expect) > 0
+	for _, want := range expect {
+		switch want.JSON.(type) {
+		case bool, json.Number:
+			if !want.IsPrim || want.Synth != nil {
+				simple = false
+			}
+		default:
+			simple = false
+		}
+	}
+	if simple {
+		rv := fx.Eval(env, src+".value", in, nil, nil)
+		env.Cover("value-step")
+		if rv.IsPanic() {
+			env.Violatef(fx.PanicSig("C02", rv), "`%s.value` on %s => %s", src, tn, rv.Short())
+			return
+		}
+		if !rv.IsValue() || len(rv.Items) != len(expect) {
+			fail("value-step/wrong-count", fmt.Sprintf("`%s.value` gives %s for %d primitive element(s) with a value", src, trunc(rv.Short(), 120), len(expect)))
+			return
+		}
+		for i, want := range expect {
+			it := rv.Items[i]
+			switch jv := want.JSON.(type) {
+			case bool:
+				if it.K != "Boolean" || it.T != fmt.Sprint(jv) {
+					fail("value-step/wrong-value", fmt.Sprintf("`%s.value` item %d: JSON %v vs %s", src, i, jv, it))
+				}
+			case json.Number:
+				jr, ok1 := new(big.Rat).SetString(jv.String())
+				gr, ok2 := new(big.Rat).SetString(it.T)
+				if !ok1 || !ok2 || jr.Cmp(gr) != 0 {
+					fail("value-step/wrong-value", fmt.Sprintf("`%s.value` item %d: JSON number %s vs %s", src, i, jv, it))
+				}
+			}
 		}
 	}
 }
